@@ -9,6 +9,8 @@ From Refinery Require Export Monitor.CollCase_coll.
    13  a span of a trace whose remembered decision is drop was forwarded (dry run off)
    14  the final flush did not empty the buffers (a trace is never decided)
    15  spans were forwarded for a trace that was never decided
+   16  flood (more traces decided than the outgoing queue holds while the upstream is stalled): spans of
+       kept traces never reached the transmission
    (traces whose decision was forgotten are exempt from 12, 13 and 15) *)
 Definition enc_ts (e : ev) : N := (fst (fst e) * 4294967296 + snd (fst e))%N.
 
@@ -28,4 +30,5 @@ Definition check (k : case) : codes :=
   cond (nodup_N (map enc_ts (all_fwd (k_items k)))) 10 ++
   cond (forallb (fun e => N.ltb (ev_tid e) (k_ntr k)) (all_fwd (k_items k))) 11 ++
   cond (negb (N.eqb (k_flush k) 1) || forallb (fun b : bufobs => is_empty b) (final_bufs (k_items k))) 14 ++
+  cond (N.eqb (k_flood_lost k) 0) 16 ++
   flat_map (c02_trace k) (seqN (k_ntr k)).
